@@ -94,6 +94,12 @@ def run_shards(prop, tier, seed, plan, scratch):
 
 
 def main(argv=None):
+    # witnesses may hold text no encoding can carry (half a surrogate pair): the report must still be printed
+    for st in (sys.stdout, sys.stderr):
+        try:
+            st.reconfigure(errors="backslashreplace")
+        except (AttributeError, ValueError):
+            pass
     ap = argparse.ArgumentParser()
     ap.add_argument("prop")
     ap.add_argument("--tier", default=os.environ.get("VERIF_TIER", "quick"))
@@ -196,7 +202,7 @@ def finish(prop, mon, plan, agg, a):
         v = min(by_key[k], key=lambda r: len(json.dumps(r.get("witness", {}))))
         h = hashlib.sha1(k.encode()).hexdigest()[:12]
         path = os.path.join(rdir, f"{h}.json")
-        with open(path, "w", encoding="utf-8") as fh:
+        with open(path, "w", encoding="utf-8", errors="backslashreplace") as fh:
             json.dump({"property": prop, "key": k, "what": v["what"], "witness": v.get("witness"), "seed": a.seed,
                        "tier": a.tier, "count": len(by_key[k])}, fh, ensure_ascii=False, indent=1)
         if vio_lines < 25:
@@ -243,7 +249,7 @@ def finish(prop, mon, plan, agg, a):
     # runs against a deliberately broken tree (tools/mutant_matrix.py etc.) must not overwrite the evidence of the real tree
     evdir = os.environ.get("VERIF_EVIDENCE_DIR") or os.path.join(VERIF, "evidence")
     os.makedirs(evdir, exist_ok=True)
-    with open(os.path.join(evdir, f"{prop}.json"), "w", encoding="utf-8") as fh:
+    with open(os.path.join(evdir, f"{prop}.json"), "w", encoding="utf-8", errors="backslashreplace") as fh:
         json.dump(ev, fh, ensure_ascii=False, indent=1)
     ctr = ", ".join(f"{k}={v}" for k, v in sorted(agg["counters"].items()))
     print(f"[{prop}] tier={a.tier} seed={a.seed} verdict={verdict} evaluations={agg['evaluations']} "
